@@ -41,9 +41,7 @@ def pairings(L, adjacent_only):
 def via_autoref(A, bdd, is_image, t, s, a_ren, a_q, forall):
     """the module-level dd.autoref.image / preimage with Function operands (handles built without
     touching the counts; the returned handle is released without a decref: the harness owns none)"""
-    ab = A.BDD.__new__(A.BDD)
-    ab._bdd = bdd
-    ab.vars = bdd.vars
+    ab = base.make_autoref(A, bdd)
 
     def mk(u):
         f = A.Function.__new__(A.Function)
@@ -70,11 +68,12 @@ class Harness:
 
     def __init__(self, N=4, L=2, which=('preimage', 'image', 'image_nonadjacent'),
                  maxpairs=2, styles=('names', 'levels'), minpairs=1, qsets=None, foralls=(0, 1),
-                 forward_only=False):
+                 forward_only=False, warm=False):
         self.N, self.L, self.which, self.maxpairs = N, L, list(which), maxpairs
         self.styles = list(styles)
         self.minpairs, self.qsets, self.foralls = minpairs, qsets, list(foralls)
         self.forward_only = forward_only
+        self.warm = warm      # an earlier call with the same arguments and the opposite quantifier kind
 
     def install(self):
         self.B = base.import_dd('dd.bdd')
@@ -140,7 +139,7 @@ class Harness:
 
         def extract(model):
             case = m.extract(model)
-            case['args'] = dict(which=which, forall=forall, style=style,
+            case['args'] = dict(which=which, forall=forall, style=style, warm=self.warm,
                                 ren={str(k): v for k, v in ren.items()}, qlev=qlev,
                                 t=base.ev_int(model, t), s=base.ev_int(model, s))
             case['harness'] = 'image'
@@ -149,6 +148,8 @@ class Harness:
         f = self.B.image if is_image else self.B.preimage
         exc = r = None
         try:
+            if self.warm:
+                f(SymInt(t), SymInt(s), a_ren, a_q, bdd, not forall)
             if style == 'autoref':
                 r = via_autoref(base.import_dd('dd.autoref'), bdd, is_image, SymInt(t), SymInt(s), a_ren, a_q, forall)
             else:
@@ -207,6 +208,8 @@ def replay(case):
     old = {k: concrete.tt(bdd, k) for k in bdd._succ}
     exc = r = None
     try:
+        if a.get('warm'):
+            f(a['t'], a['s'], a_ren, a_q, bdd, not forall)
         if a['style'] == 'autoref':
             import dd.autoref as A
             r = via_autoref(A, bdd, is_image, a['t'], a['s'], a_ren, a_q, forall)
